@@ -12,3 +12,29 @@ NOT_CARRIED = ["os.path.realpath, os.path.exists, glob, shlex, which: assumed co
                "destination shape of persisted content (serializers, mangle_command) and '..' inside relative paths re-joined under the "
                "output directory: not under contract",
                "apply_blacklist (translation of the user's redaction config into deny entries)"]
+
+
+def bounded(check):
+    """bounded stand-in / native witness search for deny-list matching and root containment"""
+    import json, os, subprocess
+    n = 3 if check.tier == "quick" else 4
+    here = os.path.dirname(os.path.dirname(os.path.abspath(__file__)))
+    p = subprocess.run(["/venv/bin/python", os.path.join(here, "bounded", "blacklist_exhaustive.py"), check.repo.root, str(n)],
+                       stdout=subprocess.PIPE, stderr=subprocess.PIPE, universal_newlines=True, timeout=3000)
+    line = (p.stdout.strip().splitlines() or ["{}"])[-1]
+    try:
+        info = json.loads(line)
+    except ValueError:
+        info = {"error": (p.stderr or p.stdout)[-400:]}
+    out = dict(name="allow_file / allow_command == the deny rule; a path whose real location is outside the root is refused", level="bounded",
+               bound="deny lists of <= 2 entries (length <= 3) x candidates up to length %d over {a, b, space, /}; 11 layouts ('..', sibling sharing the "
+                     "root's prefix, absolute / relative / directory symlinks)" % n,
+               result=info, violation=(p.returncode == 1), error=(p.returncode not in (0, 1)))
+    if p.returncode == 1:
+        os.makedirs(os.path.join(here, "replays"), exist_ok=True)
+        path = os.path.join(here, "replays", "C06-bounded.json")
+        json.dump(dict(obligation="bounded:deny-list-and-containment", witness=info,
+                       replay_cmd="/venv/bin/python %s %s %d" % (os.path.join(here, "bounded", "blacklist_exhaustive.py"), check.repo.root, n)),
+                  open(path, "w"), indent=1)
+        out["replay"] = path
+    return [out]
